@@ -100,6 +100,17 @@ def grep_gate():
             txt2 = re.sub(r"\(\*.*?\*\)", "", txt, flags=re.S)
             for m in pat.finditer(txt2):
                 bad.append("%s: %s" % (os.path.relpath(p, COQ), m.group(0)))
+            # Variable / Hypothesis / Context outside a Section declare axioms
+            depth = 0
+            for line in txt2.split("\n"):
+                s = line.strip()
+                if re.match(r"^(Section|Module)\s+\w+", s) and not s.startswith("Module Import"):
+                    depth += 1
+                elif re.match(r"^End\s+\w+\s*\.", s):
+                    depth = max(0, depth - 1)
+                elif depth == 0 and re.match(
+                        r"^(Local\s+|Global\s+)?(Hypothesis|Hypotheses|Variable|Variables|Context)\b", s):
+                    bad.append("%s: %s outside a Section" % (os.path.relpath(p, COQ), s[:60]))
     return bad
 
 
